@@ -1,7 +1,7 @@
 From Coq Require Import List NArith ZArith Bool.
 From LTV Require Import Common.Bytes.
 From LTV.C07 Require Import Model.
-From LTV.C14 Require Import Model Proofs.
+From LTV.C14 Require Import Model Proofs ProofsB.
 Import ListNotations.
 Local Open Scope N_scope.
 
@@ -33,6 +33,11 @@ Theorem parsers_no_fault : forall buf,
   parse_compact6 buf <> PFault /\ parse_compact6 buf <> POutOfFuel.
 Proof. exact Proofs.parsers_no_fault. Qed.
 Print Assumptions parsers_no_fault.
+
+(* DHT "6:" lists: exactly the longest prefix of "6:"+6-byte entries; never an out-of-range read *)
+Theorem bencode_peers_exact : forall buf, parse_bencode_peers buf = POk (spec_bencode (S (length buf)) buf).
+Proof. exact ProofsB.bencode_peers_exact. Qed.
+Print Assumptions bencode_peers_exact.
 
 (* dictionary form *)
 Theorem normal_exact : forall l, parse_normal l = flat_map (fun v => opt_list _ (normal_entry v)) l.
